@@ -105,7 +105,13 @@ impl Interval {
 
     /// Returns the quadrant for trigonometric functions
     fn quadrant(angle: f32) -> Quadrant {
-        match (angle * 2.0 / PI).floor().rem_euclid(4.0) as u8 {
+        // This is computed with `f64` precision: in `f32`, the rounding error of
+        // `angle * 2.0 / PI` exceeds a whole quadrant for large angles, which
+        // produced non-enclosing (or even inverted) intervals.
+        match (angle as f64 * 2.0 / std::f64::consts::PI)
+            .floor()
+            .rem_euclid(4.0) as u8
+        {
             0 => Quadrant::Q0,
             1 => Quadrant::Q1,
             2 => Quadrant::Q2,
